@@ -174,16 +174,23 @@ def write_foreign(path, e, content, pals):
             w.writerow(row)
 
 
+def path_of(d, e):
+    """Files of stem q are named by pathlib.Path objects, the others by strings."""
+    import pathlib
+    p = os.path.join(d, e["stem"] + "." + e["fmt"] + e["suffix"])
+    return pathlib.Path(p) if e["stem"] == "q" else p
+
+
 def do_write(d, e, contents_written):
     import dataiter as di
-    path = os.path.join(d, e["stem"] + "." + e["fmt"] + e["suffix"])
+    path = path_of(d, e)
     pals = palettes(e["owner"], e["fmt"], e["enc"], e["c"])
     obs = {"err": "", "exists": False, "magic": "missing"}
     try:
         obj = build(e["owner"], CONTENTS[e["c"] - 1], pals)
         f = e["fmt"]
         if e.get("ext"):
-            write_foreign(path, e, CONTENTS[e["c"] - 1], pals)
+            write_foreign(str(path), e, CONTENTS[e["c"] - 1], pals)
         elif f == "pickle":
             obj.write_pickle(path)
         elif f == "npz":
@@ -238,7 +245,7 @@ def _equal_kinds(fmt, kinds, kinds_w, cols):
 
 
 def do_read(d, e, contents_written):
-    path = os.path.join(d, e["stem"] + "." + e["fmt"] + e["suffix"])
+    path = path_of(d, e)
     pals, kinds_w = contents_written.get((e["stem"], e["suffix"]), ({}, {}))
     obs = {"err": "", "frame": {"cols": [], "cell": {}}, "kinds_same": True, "alias_same": True, "cast_ok": True}
     cast = e["cast"] if isinstance(e["cast"], str) else ("float" if e["cast"] else "")
